@@ -286,33 +286,57 @@ async def run_proto_recon(run: dict) -> list[dict]:
                 if not decodable(fr, False):
                     continue
                 pkt = t.make_pkt(fr)
-                o["wanted"] = int(p._is_wanted_addrs(pkt.src.id, pkt.dst.id))
                 got.clear()
-                p.pkt_received(pkt)
+                try:    # (a filter that raises has neither passed nor announced anything: the packet was not delivered)
+                    o["wanted"] = int(p._is_wanted_addrs(pkt.src.id, pkt.dst.id))
+                    p.pkt_received(pkt)
+                except Exception as err:  # noqa: BLE001
+                    o["exc"] = type(err).__name__
                 await _drain()
                 o["delivered"] = len(got) > 0
             else:
                 if not up or not decodable(fr, True):
                     continue
                 cmd = Command(fr)
-                o["wanted"] = int(p._is_wanted_addrs(cmd.src.id, cmd.dst.id, sending=True))
+                try:
+                    o["wanted"] = int(p._is_wanted_addrs(cmd.src.id, cmd.dst.id, sending=True))
+                except Exception as err:  # noqa: BLE001
+                    o["exc"] = type(err).__name__
                 await _send(lambda c: p.send_cmd(c, qos=QosParams(max_retries=0, timeout=2)), cmd, t, o)
             out.append(o)
         phases.append({"conns": list(conns), "rows": out})
 
-    await offer(True)
-    for act in opts["walk"]:
-        t.close()                           # the transport goes away and says so: call_soon(connection_lost, None)
-        await _drain()
-        conns.append("lost")
-        await offer(False)
-        t = Xport(p, loop, {"gwy": ids["Gwy"], "foreign": ids["Foreign18"], "none": None}[act])
-        # from the loop, as a transport does it: an exception in connection_made() goes where it goes in the field
-        # (the loop's exception handler), and the rows meet the protocol in the state that leaves it in
-        loop.call_soon(lambda t=t: p.connection_made(t, ramses=True))
-        await _drain()
-        conns.append(act)
+    # the calendar moves on while the protocol lives: every re-connection happens on the next day (the filter keeps a
+    # per-day memory of the foreign gateways it has warned about; what it passes and drops must not depend on the date)
+    import ramses_tx.protocol as _pm
+    from datetime import timedelta as _td
+
+    class _Cal(_pm.dt):  # type: ignore[name-defined, misc]
+        off = 0
+
+        @classmethod
+        def now(cls, tz=None):
+            return _real_dt.now(tz) + _td(days=cls.off)
+
+    _real_dt = _pm.dt
+    _pm.dt = _Cal  # type: ignore[misc]
+    try:
         await offer(True)
+        for act in opts["walk"]:
+            t.close()                           # the transport goes away and says so: call_soon(connection_lost, None)
+            await _drain()
+            conns.append("lost")
+            await offer(False)
+            t = Xport(p, loop, {"gwy": ids["Gwy"], "foreign": ids["Foreign18"], "none": None}[act])
+            # from the loop, as a transport does it: an exception in connection_made() goes where it goes in the field
+            # (the loop's exception handler), and the rows meet the protocol in the state that leaves it in
+            loop.call_soon(lambda t=t: p.connection_made(t, ramses=True))
+            await _drain()
+            conns.append(act)
+            _Cal.off += 1
+            await offer(True)
+    finally:
+        _pm.dt = _real_dt  # type: ignore[misc]
     run["_phases"] = phases
     return phases[-1]["rows"]
 
